@@ -168,7 +168,7 @@ const VOCAB: [&str; 64] = [
 ];
 const CHARS: [char; 24] = ['{', '}', '(', ')', '[', ']', ',', '.', ':', '=', ';', '"', '\'', '-', '/', '*', ' ', '\n', '\t', 'a', 'Z', '0', '9', '\u{e4}'];
 
-fn edit_strategy() -> impl Strategy<Value = Edit> {
+pub fn edit_strategy() -> impl Strategy<Value = Edit> {
     prop_oneof![
         3 => any::<u16>().prop_map(Edit::DeleteToken),
         2 => any::<u16>().prop_map(Edit::DuplicateToken),
@@ -289,6 +289,20 @@ pub fn run(ctx: Ctx) -> i32 {
     let report = Report::new(ctx.clone(), RULE);
     report.assumption("printing code for accepted modules is C09's subject; stdout/stderr noise of the library is ignored");
     let replay = |c: &J| -> Result<(), Fail> { check_text(c["text"].as_str().unwrap_or("")).map(|_| ()) };
+    // a raw libFuzzer input (timeout / out-of-memory artifacts have no decoded case)
+    if let Some(path) = &ctx.replay {
+        let j = read_replay(path);
+        if let Some(h) = j["case"]["fuzz_input"].as_str() {
+            report.eval(1);
+            match fuzz_one(&unhex(h)) {
+                None => println!("replay: case passes"),
+                Some((key, msg, case)) => {
+                    report.fail(&key, &msg, case);
+                }
+            }
+            return report.finish();
+        }
+    }
     if let Some(path) = &ctx.replay {
         start_watchdog();
         let j = read_replay(path);
@@ -406,4 +420,21 @@ pub fn run(ctx: Ctx) -> i32 {
         }
     }
     report.finish()
+}
+
+
+/// fuzz entry (engine/fuzz frontend): even first byte = the rest is the text itself; odd = the rest
+/// drives the module generator and the edit generator of the proptest tier
+pub fn fuzz_one(data: &[u8]) -> Option<(String, String, J)> {
+    let (mode, rest) = data.split_first()?;
+    let text = if mode & 1 == 0 {
+        String::from_utf8_lossy(rest).into_owned()
+    } else {
+        // bytes 1..16 choose the module, every further 8-byte chunk is one edit
+        let (head, tail) = rest.split_at(rest.len().min(16));
+        let m = from_fuzz_bytes(&frontend_module_strategy(2, 3), head)?;
+        let edits = if tail.is_empty() { vec![] } else { from_fuzz_chunks(&edit_strategy(), tail, 6) };
+        apply(&module_text(&m), &edits)
+    };
+    check_text(&text).err().map(|(k, m)| (k, m, json!({"text": text})))
 }
